@@ -90,28 +90,38 @@ def ahead (seg : Seg) : Nat → Option Nat → List Nat
   | _, none => []
   | n + 1, some s => s :: ahead seg n (seg.get s).next
 
+/-- `FiniteStateMachine::reset`: walk back over at most `maxPre` predecessors; `(start slot, context length)` -/
+def fsmBack (seg : Seg) (maxPre : Nat) : Nat → Nat → Nat → Nat × Nat
+  | 0, s, ctxt => (s, ctxt)
+  | f + 1, s, ctxt =>
+    if ctxt = maxPre then (s, ctxt) else
+    match (seg.get s).prev with
+    | some q => fsmBack seg maxPre f q (ctxt + 1)
+    | none => (s, ctxt)
+
+/-- the cells the matcher pushes: the slots pushed in the loop, then (when the loop ran to its end) the slot after them,
+possibly null -/
+def fsmCells (window : List Nat) (pushed : Nat) (more : Bool) : List (Option Nat) :=
+  (window.take pushed).map some ++ (if more then [window[pushed]?] else [])
+
+/-- the cells go into the slot map from cell 1 on -/
+def fillMap (m : Array (Option Nat)) (cells : List (Option Nat)) : Array (Option Nat) :=
+  (cells.zipIdx).foldl (fun (m : Array (Option Nat)) (x : Option Nat × Nat) => m.setIfInBounds (x.2 + 1) x.1) m
+
+/-- `SlotMap::reset` and what the matcher then records -/
+def _root_.GrVerif.Seg.Ctx.resetMap (c : Ctx) (smap : Array (Option Nat)) (size context : Nat) : Ctx :=
+  { c with smap := smap, size := size, context := context }
+
 /-- `FiniteStateMachine::reset` + `Pass::runFSM`: `(matched, context with the slot map filled, rules in precedence order)` -/
 def runFSM (p : PassT) (c : Ctx) (slot : Nat) : Bool × Ctx × List Nat :=
-  -- reset: walk back over at most `maxPre` predecessors
-  let rec back (fuel : Nat) (s : Nat) (ctxt : Nat) : Nat × Nat :=
-    match fuel with
-    | 0 => (s, ctxt)
-    | f + 1 =>
-      if ctxt = p.maxPre then (s, ctxt) else
-      match (c.seg.get s).prev with
-      | some q => back f q (ctxt + 1)
-      | none => (s, ctxt)
-  let (start, ctxt) := back (p.maxPre + 1) slot 0
-  let smap0 : Array (Option Nat) := (Array.replicate (MAX_SLOTS + 2) none).setIfInBounds 0 (c.seg.get start).prev
-  let c := { c with smap := smap0, size := 0, context := ctxt }
-  if ctxt < p.minPre then (false, c, []) else
-  let state0 := p.starts.getD (p.maxPre - ctxt) 0
-  let window := ahead c.seg (MAX_SLOTS + 1) (some start)
+  let bc := fsmBack c.seg p.maxPre (p.maxPre + 1) slot 0
+  let smap0 : Array (Option Nat) := (Array.replicate (MAX_SLOTS + 2) none).setIfInBounds 0 (c.seg.get bc.1).prev
+  if bc.2 < p.minPre then (false, c.resetMap smap0 0 bc.2, []) else
+  let state0 := p.starts.getD (p.maxPre - bc.2) 0
+  let window := ahead c.seg (MAX_SLOTS + 1) (some bc.1)
   let r := fsmScan p (window.map fun s => (c.seg.get s).gid) state0 MAX_SLOTS [] 0
-  -- the slot map: the slots pushed in the loop, then (when the loop ran to its end) the slot after them, possibly null
-  let cells : List (Option Nat) := (window.take r.2.1).map some ++ (if r.2.2.1 then [window[r.2.1]?] else [])
-  let smap := (cells.zipIdx).foldl (fun (m : Array (Option Nat)) (x : Option Nat × Nat) => m.setIfInBounds (x.2 + 1) x.1) c.smap
-  (r.1, { c with smap := smap, size := cells.length }, r.2.2.2)
+  let cells := fsmCells window r.2.1 r.2.2.1
+  (r.1, c.resetMap (fillMap smap0 cells) cells.length bc.2, r.2.2.2)
 
 /-- code of a rule, decoded: instructions (with the loader's `temp_copy` insertions for action code), `deletes`, `max_ref`, data bytes -/
 structure Code where
@@ -157,43 +167,43 @@ def testConstraint (r : Rule) (c : Ctx) : Except String (Bool × Status) :=
           if ret = 0 ∨ st ≠ .finished then .ok (false, st) else go n (cell + 1)
     go r.sort base
 
+/-- `if (highpassed && highwater == slot) highpassed(false)` and its mirror image -/
+def _root_.GrVerif.Seg.Ctx.setHighpassed (c : Ctx) (b : Bool) : Ctx := { c with highpassed := b }
+
+/-- `Pass::adjustSlot` with a null `slot_out`: start from the last slot (and one step further forward) when the high-water
+mark has been passed or there is none, otherwise from the first slot (and one step further back) -/
+def adjustStart (c : Ctx) (delta : Int) : Ctx × Option Nat × Int :=
+  if c.highpassed ∨ c.highwater.isNone then
+    ((if c.highwater.isNone ∨ c.highwater = c.seg.last then c.setHighpassed false else c), c.seg.last, delta + 1)
+  else (c, c.seg.first, delta - 1)
+
+/-- `while (++delta <= 0 && slot_out)` -/
+def adjustBack : Nat → Ctx → Int → Option Nat → Ctx × Option Nat
+  | 0, c, _, so => (c, so)
+  | _, c, _, none => (c, none)
+  | f + 1, c, d, some s =>
+    if d + 1 ≤ 0 then
+      adjustBack f (if c.highpassed ∧ c.highwater = (c.seg.get s).prev then c.setHighpassed false else c) (d + 1) (c.seg.get s).prev
+    else (c, some s)
+
+/-- `while (--delta >= 0 && slot_out)` -/
+def adjustFwd : Nat → Ctx → Int → Option Nat → Ctx × Option Nat
+  | 0, c, _, so => (c, so)
+  | _, c, _, none => (c, none)
+  | f + 1, c, d, some s =>
+    if d - 1 ≥ 0 then
+      adjustFwd f (if some s = c.highwater then c.setHighpassed true else c) (d - 1) (c.seg.get s).next
+    else (c, some s)
+
 /-- `Pass::adjustSlot` -/
 def adjustSlot (c : Ctx) (delta : Int) (slotOut : Option Nat) : Ctx × Option Nat :=
-  let (c, slotOut, delta) :=
+  let st : Ctx × Option Nat × Int :=
     match slotOut with
     | some _ => (c, slotOut, delta)
-    | none =>
-      if c.highpassed ∨ c.highwater.isNone then
-        let so := c.seg.last
-        let c := if c.highwater.isNone ∨ c.highwater = so then { c with highpassed := false } else c
-        (c, so, delta + 1)
-      else (c, c.seg.first, delta - 1)
-  if delta < 0 then
-    -- `while (++delta <= 0 && slot_out)`
-    let rec bk (fuel : Nat) (c : Ctx) (d : Int) (so : Option Nat) : Ctx × Option Nat :=
-      match fuel, so with
-      | 0, _ => (c, so)
-      | _, none => (c, none)
-      | f + 1, some s =>
-        if d + 1 ≤ 0 then
-          let so' := (c.seg.get s).prev
-          let c := if c.highpassed ∧ c.highwater = so' then { c with highpassed := false } else c
-          bk f c (d + 1) so'
-        else (c, so)
-    bk (delta.natAbs + 1) c delta slotOut
-  else if delta > 0 then
-    -- `while (--delta >= 0 && slot_out)`
-    let rec fw (fuel : Nat) (c : Ctx) (d : Int) (so : Option Nat) : Ctx × Option Nat :=
-      match fuel, so with
-      | 0, _ => (c, so)
-      | _, none => (c, none)
-      | f + 1, some s =>
-        if d - 1 ≥ 0 then
-          let c := if so = c.highwater then { c with highpassed := true } else c
-          fw f c (d - 1) (c.seg.get s).next
-        else (c, so)
-    fw (delta.natAbs + 1) c delta slotOut
-  else (c, slotOut)
+    | none => adjustStart c delta
+  if st.2.2 < 0 then adjustBack (st.2.2.natAbs + 1) st.1 st.2.2 st.2.1
+  else if st.2.2 > 0 then adjustFwd (st.2.2.natAbs + 1) st.1 st.2.2 st.2.1
+  else (st.1, st.2.1)
 
 /-- the search of `findNDoRule` for the first rule (in precedence order) whose constraint passes; a machine status other
 than `finished` ends the search -/
@@ -303,14 +313,7 @@ def shape (font : Font) (text : List Nat) (fuel : Nat) : Except String (Option (
   | .ok none => .ok none
   | .ok (some c) =>
     -- associateChars on the stream
-    let stream := Id.run do
-      let mut out : List Nat := []
-      let mut p := c.seg.first
-      for _ in [0:2 * c.seg.slots.size + 8] do
-        match p with
-        | none => break
-        | some i => out := i :: out; p := (c.seg.get i).next
-      return out.reverse
+    let stream := ahead c.seg (2 * c.seg.slots.size + 8) c.seg.first
     let pairs := stream.map fun i => ((c.seg.get i).before, (c.seg.get i).after)
     let r := Assoc.associateChars n pairs
     if r.2.2 then .error "associateChars: char-info access out of range" else
